@@ -192,11 +192,14 @@ def p1text_obligations(eng):
             outs.append((st1, SStr(fresh("decoded", S_)) if isinstance(r, STxt) else r))
         return outs
     eng.prelude_methods["decode"] = m_decode
-    content = SBytes(z3.Const("content", BYTE_ARR), z3.Int("content_n"))
+    content = SBytes(z3.Const("content", BYTE_ARR), z3.Int("content_n")); kq_ = z3.Int("kq__c")
     for name in ("parse_p1_readout_content", "decode_p1_readout_content"):
         def init_c(e):
             st = State(); st.pc.append(content.n >= 0); yield st, [content]
-        o = eng.verify(D + name, Contract(init_c, (lambda name: lambda st, args, res, old, e: [(f"{name} returns its result type", z3.BoolVal(isinstance(res, (dict, list, GhostList))))])(name),
+        o = eng.verify(D + name, Contract(init_c, (lambda name: lambda st, args, res, old, e: [(f"{name} returns its result type", z3.BoolVal(isinstance(res, (dict, list, GhostList)))),
+                                                                                          (f"{name} returns only for pure ASCII content (C12: a payload with an octet >= 0x80 is refused with ValueError)", S.ALLASCII(content.arr, content.off, content.off + content.n))] +
+                                                                                         ([("decode_p1_readout_content returns only for text: no control octet other than CR / LF (C12: every DLMS list starts with the array / structure tag 0x01 / 0x02 and is refused)",
+                                                                                            z3.ForAll([kq_], z3.Implies(z3.And(0 <= kq_, kq_ < content.n), z3.Or(z3.UGE(content.at(kq_), 0x20), content.at(kq_) == 0x0A, content.at(kq_) == 0x0D))))] if name == "decode_p1_readout_content" else []))(name),
                        raises=only_value_error(name), fork_implicit=True))
         obls += o
     for o in obls: o.meta.update(replay="replay_p1text", strings=True)
@@ -275,7 +278,7 @@ def decode_mapping_obligations(eng):
             outs.append((st1, r if r is not None else SStr(TEXT(base.arr, base.off, base.off + base.n))))
         return outs
     eng.prelude_methods["decode"] = m_decode
-    content = SBytes(z3.Const("content", BYTE_ARR), z3.Int("content_n")); text = TEXT(content.arr, content.off, content.off + content.n)
+    content = SBytes(z3.Const("content", BYTE_ARR), z3.Int("content_n")); kq_ = z3.Int("kq__c"); text = TEXT(content.arr, content.off, content.off + content.n)
     def init_c(e):
         st = State(); st.pc.append(content.n >= 0); yield st, [content]
     o = eng.verify(D + "decode_p1_readout_content", Contract(init_c, lambda st, args, res, old, e: [("result == _decode_parsed(parse_data_block(ascii text of the content)), which is non-empty",
